@@ -767,7 +767,14 @@ def gen_std():
 
 
 def main():
-    return [gen_group(g) for g in GROUPS] + [gen_real(), gen_entropy(), gen_std()]        # GROUPS includes "downsample"
+    """every group; a group whose source is outside the subset is reported and skipped (its Generated file stays as committed)"""
+    out = []
+    for fn_ in [lambda g=g: gen_group(g) for g in GROUPS] + [gen_real, gen_entropy, gen_std]:        # GROUPS includes "downsample"
+        try:
+            out.append(fn_())
+        except Untranslatable as e:
+            out.append(f"unavailable: {e}")
+    return out
 
 
 if __name__ == "__main__":
